@@ -1,2 +1,110 @@
-(* placeholder until the proofs land *)
-From Tables Require Import ModelRib.
+(* Property C06 — the FIB always equals the flattening of the currently registered RIB routes.
+   Only theorem statements closed by `exact`, each followed by Print Assumptions.
+   Model: ModelRib.v (fw/table/rib.go after the four fix: commits).  [shuffle] is the order in which Go iterates over
+   the min-cost map: any permutation.  rib_emitted ops = the FIB operations the RIB issued over the history ops,
+   fib_after ops = the flat FIB they produce (C05 ties both real FIB structures to it), routes_after ops = the
+   registered routes as a flat map name -> routes. *)
+From Tables Require Import ModelAssoc ModelTree ModelFib ModelRib Assoc Tree Lpm FibTree FibHash Rib.
+From Coq Require Import Permutation.
+Local Open Scope nat_scope.
+
+(* ---- meaning of the specification ---- *)
+(* flatten = per face the minimum cost among the contributing routes, each contributing face exactly once *)
+Theorem flatten_is_min_cost_per_face : forall rs,
+  NoDup (map fst (min_cost rs)) /\ forall f c, In (f, c) (min_cost rs) <-> best rs f c.
+Proof. exact min_cost_meaning. Qed.
+Print Assumptions flatten_is_min_cost_per_face.
+
+(* contributing routes of prefix n = its own routes, plus -- unless n itself holds a capture route -- the child-inherit
+   routes of shorter prefixes, stopping at and including the nearest one holding a capture route *)
+Theorem contributing_routes : forall (ra : name -> list route) n r,
+  In r (contributing ra n) <->
+  In r (ra n) \/
+  (captures (ra n) = false /\
+   exists j, j <= length n /\ In r (ra (firstn j n)) /\ has_ci r = true /\
+             forall i, j < i <= length n -> captures (ra (firstn i n)) = false).
+Proof. exact contributing_meaning. Qed.
+Print Assumptions contributing_routes.
+
+(* ---- the property ---- *)
+(* after ANY history of register / unregister / face clean-up, EVERY prefix's FIB entry holds exactly the flattening
+   of the registered routes if the prefix has routes, and nothing otherwise *)
+Theorem rib_fib_exact : forall shuffle, (forall l, Permutation (shuffle l) l) -> forall ops p,
+  Permutation (nhs (sget (fib_after shuffle ops) p)) (fib_want (routes_after ops) p).
+Proof. exact rib_fib_exact_thm. Qed.
+Print Assumptions rib_fib_exact.
+
+(* hence every lookup returns longest-prefix match over { p |-> flatten p | p has routes } *)
+Theorem rib_flatten : forall shuffle, (forall l, Permutation (shuffle l) l) -> forall ops n,
+  Permutation (spec_find_nh (fib_after shuffle ops) n) (want_lookup (routes_after ops) n).
+Proof. exact rib_flatten_thm. Qed.
+Print Assumptions rib_flatten.
+
+(* composed with C05: the same for what the name-tree FIB and the hash-table FIB (any m >= 1) answer *)
+Theorem rib_flatten_tree : forall shuffle, (forall l, Permutation (shuffle l) l) -> forall ops n,
+  Permutation (tree_find_nh (run_tree (rib_emitted shuffle ops)) n) (want_lookup (routes_after ops) n).
+Proof. exact rib_flatten_tree_thm. Qed.
+Print Assumptions rib_flatten_tree.
+
+Theorem rib_flatten_ht : forall shuffle, (forall l, Permutation (shuffle l) l) -> forall m ops n, 1 <= m ->
+  Permutation (ht_find_nh m (run_ht m (rib_emitted shuffle ops)) n) (want_lookup (routes_after ops) n).
+Proof. exact rib_flatten_ht_thm. Qed.
+Print Assumptions rib_flatten_ht.
+
+(* GetAllFIBEntries lists exactly the prefixes that have routes, with their flattening *)
+Theorem rib_listing_tree : forall shuffle, (forall l, Permutation (shuffle l) l) -> forall ops,
+  let l := list_fib (nodes (run_tree (rib_emitted shuffle ops))) in let R := routes_after ops in
+  (forall p nh, In (p, nh) l -> Permutation nh (fib_want R p) /\ nh <> []) /\
+  (forall p, fib_want R p <> [] -> exists nh, In (p, nh) l) /\ NoDup (map fst l).
+Proof. exact rib_listing_tree_thm. Qed.
+Print Assumptions rib_listing_tree.
+
+Theorem rib_listing_ht : forall shuffle, (forall l, Permutation (shuffle l) l) -> forall m ops, 1 <= m ->
+  let l := list_fib (real (run_ht m (rib_emitted shuffle ops))) in let R := routes_after ops in
+  (forall p nh, In (p, nh) l -> Permutation nh (fib_want R p) /\ nh <> []) /\
+  (forall p, fib_want R p <> [] -> exists nh, In (p, nh) l) /\ NoDup (map fst l).
+Proof. exact rib_listing_ht_thm. Qed.
+Print Assumptions rib_listing_ht.
+
+(* nothing ever appears in the root entry that was not registered at the root *)
+Theorem rib_root_clean : forall shuffle, (forall l, Permutation (shuffle l) l) -> forall ops f c,
+  In (f, c) (nhs (sget (fib_after shuffle ops) [])) ->
+  exists r, In r (rget (routes_after ops) []) /\ r_face r = f /\ r_cost r = c.
+Proof. exact rib_root_clean_thm. Qed.
+Print Assumptions rib_root_clean.
+
+(* no residue: every next hop anywhere in the FIB is justified by a currently registered route (same face, same cost)
+   on that prefix or a shorter one, and the prefix itself has routes *)
+Theorem rib_no_residue : forall shuffle, (forall l, Permutation (shuffle l) l) -> forall ops p f c,
+  In (f, c) (nhs (sget (fib_after shuffle ops) p)) ->
+  rget (routes_after ops) p <> [] /\
+  exists q r, is_prefix q p = true /\ In r (rget (routes_after ops) q) /\ r_face r = f /\ r_cost r = c.
+Proof. exact rib_no_residue_thm. Qed.
+Print Assumptions rib_no_residue.
+
+(* in particular a removed face is gone from every FIB entry *)
+Theorem rib_cleanup_no_residue : forall shuffle, (forall l, Permutation (shuffle l) l) -> forall ops f p c,
+  ~ In (f, c) (nhs (sget (fib_after shuffle (ops ++ [Cleanup f])) p)).
+Proof. exact rib_cleanup_no_residue_thm. Qed.
+Print Assumptions rib_cleanup_no_residue.
+
+(* Rib.GetAllEntries is exact *)
+Theorem rib_entries_exact : forall shuffle, (forall l, Permutation (shuffle l) l) -> forall ops p rs,
+  In (p, rs) (list_rib (fst (rib_run shuffle ops))) <-> (rs = rget (routes_after ops) p /\ rs <> []).
+Proof. exact (fun sh H ops => proj2 (proj2 (rib_minimal_thm sh H ops))). Qed.
+Print Assumptions rib_entries_exact.
+
+(* non-vacuity: the identity is a permutation; a history with a gap (/1 and /1/2/3 without /1/2), a capture holder in
+   the middle, two origins on one face, unregistration and face clean-up, with non-trivial FIB contents *)
+Example c06_example :
+  let id := fun l : list nexthop => l in
+  let ops := [Reg [1;2;3] (mkroute 7 0 10 1); Reg [1] (mkroute 8 0 5 1); Reg [] (mkroute 9 0 1 1);
+              Reg [1;2] (mkroute 6 0 2 3); Reg [1] (mkroute 8 65 3 0); Unreg [1;2] 6 0; Reg [1;4] (mkroute 5 0 4 2);
+              Cleanup 9]%N in
+  (forall l, Permutation (id l) l) /\
+  nhs (sget (fib_after id ops) [1;2;3]%N) = [(7, 10); (8, 5)]%N /\
+  nhs (sget (fib_after id ops) [1;2]%N) = [] /\
+  nhs (sget (fib_after id ops) [1;4]%N) = [(5, 4)]%N /\
+  nhs (sget (fib_after id ops) []) = [] /\
+  want_lookup (routes_after ops) [1;2;9]%N = [(8, 3)]%N.
+Proof. split; [intro l; apply Permutation_refl | vm_compute; repeat split; reflexivity]. Qed.
